@@ -10,7 +10,7 @@ from ..report import RuleReport
 LEVEL = 'translation_validation'
 TECHNIQUE = ('static translation validation: three artefacts (tatsu/_tatsu.ebnf text, generated parser tatsu/boot/bootstrap.py, '
              'model expression GRAMMAR_MODEL in tatsu/boot/bootparser.py) are translated by three independent front-ends into one '
-             'PEG IR, normalised by semantics-preserving rewrites and compared rule by rule; directives/keywords/rule parameters too')
+             'PEG IR, normalised by semantics-preserving rewrites and compared rule by rule; directives/keywords/rule parameters too; literal operands read back from what the generator emits')
 LEVEL_TEXT = ('Decides, for every rule of the shipped grammar at once, that the grammar file, the checked-in generated parser and '
               'the checked-in grammar model denote the same PEG expression (after dropping groups, flattening sequences, expanding '
               'rule includes, comparing regexes as parse trees and constants by value), with the same rule order, parameters, '
